@@ -163,4 +163,66 @@ theorem sendFinish_inv {cfg : Cfg} {w : World} {p c : Nat} {st : Bool}
       simpa using M.drop_flight
     exact (pubDestroy_inv h1 p (fun hne => absurd rfl hne)).toInv
 
+theorem sendFinish_panicked (w : World) (p c : Nat) : (sendFinish w p c).panicked = w.panicked := by
+  unfold sendFinish
+  rw [(pubDestroyIfUnreferenced_P _ p).frame.2.2.2.2.1]
+  split <;> rfl
+
+theorem sendAlive_panicked (w : World) (p c tag : Nat) : (sendAlive w p c tag).1.panicked = w.panicked := by
+  unfold sendAlive
+  dsimp only
+  have h1 : (pubUpdate w p).panicked = w.panicked := (pubUpdate_P w p).frame.2.2.2.2.1
+  split
+  · exact h1
+  next P hp =>
+    dsimp only
+    have hfold : ∀ (slots : List (Option Nat)) (acc : World × Nat) (seq : Nat),
+        (slots.foldl (sendF p c seq) acc).1.panicked = acc.1.panicked := by
+      intro slots
+      induction slots with
+      | nil => intro acc seq; rfl
+      | cons a r ih =>
+        intro acc seq
+        simp only [List.foldl_cons]
+        rw [ih]
+        cases a with
+        | none => rfl
+        | some s => exact (deliverTo_P acc.1 p s c seq).frame.2.2.2.2.1
+    rw [hfold]
+    show (retrieveReturned _ p).panicked = _
+    rw [(retrieveReturned_P _ p).frame.2.2.2.2.1]
+    exact h1
+
+theorem step_send {cfg : Cfg} {w : World} (h : Inv cfg w) (p l tag : Nat) :
+    Inv cfg (step w (.send p l tag)).1 ∧ (step w (.send p l tag)).1.panicked = w.panicked := by
+  rw [step_send_eq]
+  cases hp : getP w p with
+  | none => exact ⟨h, rfl⟩
+  | some P0 =>
+    dsimp only
+    cases hfind : P0.loans.find? (·.1 = l) with
+    | none => exact ⟨h, rfl⟩
+    | some lc =>
+      obtain ⟨lab, c⟩ := lc
+      dsimp only
+      obtain ⟨hm, hlab⟩ := find_some_mem hfind
+      have hlab' : lab = l := hlab
+      subst hlab'
+      have hsim : PubSim P0 { P0 with payload := P0.payload.set c tag, loans := P0.loans.filter (·.1 ≠ lab) } :=
+        ⟨rfl, rfl, rfl, rfl, rfl⟩
+      have h1 : InvP cfg (setP w p { P0 with payload := P0.payload.set c tag, loans := P0.loans.filter (·.1 ≠ lab) })
+          none p [c] true := by
+        refine (h.toP p).setP_only hp _ hsim (fun hne => absurd rfl hne) (fun hal => ?_)
+        have M := (h.p p P0 hp).2 hal
+        simpa using M.take_loan hm (P0.payload.set c tag)
+      by_cases hal : P0.alive = true
+      · have hn : ¬ ((!P0.alive) = true) := by simp [hal]
+        rw [if_neg hn]
+        obtain ⟨k1, _⟩ := sendAlive_inv (tag := tag)
+          (P := { P0 with payload := P0.payload.set c tag, loans := P0.loans.filter (·.1 ≠ lab) }) h1 (by simp [hp]) hal
+        exact ⟨sendFinish_inv k1, by rw [sendFinish_panicked, sendAlive_panicked]; rfl⟩
+      · have hn : (!P0.alive) = true := by simpa using hal
+        rw [if_pos hn]
+        exact ⟨sendFinish_inv h1, by rw [sendFinish_panicked]; rfl⟩
+
 end Iox2.PubSub.C08
